@@ -109,7 +109,7 @@ pub fn observe(inst: &Value, modes: &[String], ctx: &mut Ctx, seed: u64) -> Valu
         return obs;
     }
     let mut args = args_of(inst);
-    if !has("rawargs") { args.retain(|k, _| iq.ir_query.variables.contains_key(k)); }
+    if !has("rawargs") && inst["rawargs"].as_bool() != Some(true) { args.retain(|k, _| iq.ir_query.variables.contains_key(k)); }
     obs["args"] = Value::Object(args.iter().map(|(k, v)| (k.to_string(), crate::val::from_fv(v))).collect());
     let args = Arc::new(args);
     let g = Arc::new(G::from_inst(inst));
